@@ -21,7 +21,8 @@ from concurrent.futures import ThreadPoolExecutor
 from pathlib import Path
 
 PY = "/venv/bin/python"
-SEEDED = Path("/verif/seeded")
+SEEDED = Path("/verif/benign") if "--benign" in sys.argv else Path("/verif/seeded")
+BENIGN = "--benign" in sys.argv
 PROPS = [f"C{n:02d}" for n in range(1, 20)]
 
 
@@ -71,12 +72,18 @@ def main():
                 other = sorted(p for p, rc in rcs.items() if rc == 1 and p != prop)
                 errs = sorted(p for p, rc in rcs.items() if rc != 1)
                 status = "detected" if own else ("detected-by-other" if other else ("analysis-error" if errs else "MISSED"))
+                if BENIGN:
+                    status = "silent" if not rcs else ("FALSE-ALARM" if any(rc == 1 for rc in rcs.values()) else "ANALYSIS-ERROR")
                 rows.append((name, prop, status, fired))
                 print(f"{name}: {status} {json.dumps(fired)[:300]}")
                 if "--write" in sys.argv:
-                    meta["detected_by"] = fired
-                    meta["detected"] = bool(own)
-                    meta["detected_status"] = status
+                    if BENIGN:
+                        meta["fired"] = fired
+                        meta["status"] = status
+                    else:
+                        meta["detected_by"] = fired
+                        meta["detected"] = bool(own)
+                        meta["detected_status"] = status
                     meta_p.write_text(json.dumps(meta, indent=1))
     finally:
         shutil.rmtree(base, ignore_errors=True)
@@ -84,6 +91,17 @@ def main():
     n_other = sum(1 for r in rows if r[2] == "detected-by-other")
     n_err = sum(1 for r in rows if r[2] == "analysis-error")
     n_miss = sum(1 for r in rows if r[2] == "MISSED")
+    if BENIGN:
+        ns = sum(1 for r in rows if r[2] == "silent")
+        print(f"{len(rows)} behaviour-preserving changes: {ns} silent, {len(rows) - ns} NOT silent")
+        if "--write" in sys.argv and "--only" not in sys.argv:
+            lines = ["# Behaviour-preserving changes × checks", "", f"{len(rows)} refactorings (suite green, behaviour unchanged); {ns} leave every quick check silent.", "",
+                     "Regenerate with `tools/seed_matrix.py --benign --write`.", "", "| change | anchored property | status | what fired |", "|---|---|---|---|"]
+            for name, prop, status, fired in rows:
+                cell = "; ".join(f"{p}: {', '.join(r)[:160]}" for p, r in sorted(fired.items())) or "—"
+                lines.append(f"| {name} | {prop} | {status} | {cell} |")
+            (SEEDED / "MATRIX.md").write_text("\n".join(lines) + "\n")
+        return 0
     print(f"{len(rows)} seeded changes: {n_own} detected by the target property's check, {n_other} only by another property's check, {n_err} analysis-error only, {n_miss} missed")
     if "--write" in sys.argv and "--only" not in sys.argv:
         lines = ["# Seeded changes × checks", "",
